@@ -32,6 +32,7 @@ def main(argv):
         return 2
     chk = common.Check(prop, tier, getattr(mod, 'LEVEL', 'model_checking'))
     try:
+        engine.pool(hooks=getattr(mod, 'HOOKS', False))   # fork the workers while this process is still small
         mod.run(chk)
         rc = chk.finish()
     except common.MachineryFailure as e:
